@@ -349,6 +349,11 @@ func GenEpisodes(wt Weights) *rapid.Generator[History] {
 			case "closeinput":
 				h.Ops = append(h.Ops, Op{Kind: "closeinput"})
 			default:
+				if rapid.IntRange(0, 2).Draw(t, "partialrune") == 0 {
+					// the stream's last bytes are the beginning of a multi-byte
+					// character (binary output, a stream cut mid-character)
+					h.Ops = append(h.Ops, Op{Kind: "emit", Att: out, Raw: true, Data: []byte(rapid.SampledFrom([]string{"caf\xc3", "\xe2\x82", "x\xf0\x9f", "abc\xe2", "\xf0", "\x00\xff\xfe\xc3"}).Draw(t, "partial"))})
+				}
 				h.Ops = append(h.Ops, Op{Kind: "end", Att: out, How: how, WithErr: rapid.Bool().Draw(t, "witherr")})
 				first, firstDir = out, "output"
 			}
